@@ -139,17 +139,20 @@ def seqdiff(exe, sdir, rep, stats):
         if kind == "Q":
             m = re.match(r"Q (\S+) type=(.*) op=(\S+) storage=(\d) build=(\d) class=(\S+) (.*)", head)
             name, T, op, st, bld, cls, rest = m.groups()
-            key = (T, op, cls)
-            groups.setdefault(key, {"names": [], "first": (name, rest, plan_from_body(body))})
+            key = (T, op)
+            groups.setdefault(key, {"names": [], "first": (name, rest, plan_from_body(body)), "cls": cls})
             groups[key]["names"].append(name)
     bad = []
-    for (T, op, cls), g in sorted(groups.items()):
+    for (T, op), g in sorted(groups.items()):
         name, rest, plantext = g["first"]
-        ident = "seq class=%s type=%s op=%s" % (cls, T.replace(" ", "_"), op)
+        cls = g["cls"]
+        # the identity of a sequential difference is the (type, operation) pair: whether wrong code crashes or
+        # returns garbage can depend on addresses, so the class is reported but is not part of the identity
+        ident = "seq type=%s op=%s" % (T.replace(" ", "_"), op)
         plan = {"engine": "isched", "property": PROP, "class": cls, "kind": "sequential", "identity": ident,
                 "variants": g["names"], "plan": plantext, "observed_vs_reference": rest}
         rp = save_replay(PROP, int(sha(ident), 16), plan)
-        rep.violation(ident + " id=seq", rp, "single thread, one operation: %s\n  %s\n  variants affected: %s" % (name, rest, " ".join(g["names"])))
+        rep.violation(ident, rp, "single thread, one operation (%s): %s\n  %s\n  variants affected: %s" % (cls, name, rest, " ".join(g["names"])))
         bad += g["names"]
     return excl, bad
 
